@@ -9,9 +9,12 @@
 //!            input; the implementation's results are embedded in the Coq term and judged by the
 //!            specification in exact rational arithmetic (S lines; the I line is the verdict "ok").
 //!            `--n` = inputs per pair / triple; the first input is always 1.0.
-//!   table    behavioural extraction: convert(u, v, x) for x in {1, 3, 7, 0.1, 1e6} for every ordered
-//!            pair, written to <out>/table.json (no Coq side) -- compared by the driver with the
-//!            table the translator read from the source text.
+//!   approx   tolerance fallback (DESIGN 1.2): cases of `convert` whose bits differ from the model are re-run and
+//!            judged in Coq against the exact rational value of the model, 1e-9 relative (A lines).
+//!   table    behavioural extraction: convert(u, v, x) for 206 fixed probes for every ordered pair, the variant
+//!            lists, associated units and base units of the compiled code, written to <out>/table.json (no Coq
+//!            side) -- compared by the driver with the table the translator read from the source text, and used
+//!            INSTEAD of it when the source no longer has a shape the translator parses.
 use routee_compass_core::model::unit::as_f64::AsF64;
 use routee_compass_core::model::unit::*;
 use serde_json::{json, Value};
@@ -398,12 +401,13 @@ fn spec_convert(st: &mut Stream, fam: &str, u: &str, v: &str, x: f64) {
 }
 fn spec_builder(st: &mut Stream, kind: &str, a: &str, b: &str, c: &str, p: (f64, f64)) {
     let id = st.next_id();
-    let (term, shown) = match kind {
+    let (term, shown, readable) = match kind {
         "create_time" => {
             let r = create_time(a, b, c, p.0, p.1);
             (
                 format!("UnitsRun.spec_create_time {} {} {} {} {} {} {}", id, cu(a), cu(b), cu(c), coq_f64(p.0), coq_f64(p.1), coq_res_f(&r)),
                 show_res_f(&r),
+                format!("{:?}", r),
             )
         }
         "create_speed" => {
@@ -411,6 +415,7 @@ fn spec_builder(st: &mut Stream, kind: &str, a: &str, b: &str, c: &str, p: (f64,
             (
                 format!("UnitsRun.spec_create_speed {} {} {} {} {} {} {}", id, cu(a), cu(b), cu(c), coq_f64(p.0), coq_f64(p.1), coq_res_f(&r)),
                 show_res_f(&r),
+                format!("{:?}", r),
             )
         }
         _ => {
@@ -418,6 +423,7 @@ fn spec_builder(st: &mut Stream, kind: &str, a: &str, b: &str, c: &str, p: (f64,
             (
                 format!("UnitsRun.spec_create_energy {} {} {} {} {} {}", id, cu(a), cu(b), coq_f64(p.0), coq_f64(p.1), coq_res_e(&r)),
                 show_res_e(&r),
+                format!("{:?}", r),
             )
         }
     };
@@ -426,7 +432,7 @@ fn spec_builder(st: &mut Stream, kind: &str, a: &str, b: &str, c: &str, p: (f64,
     st.count(&format!("{}:{}", kind, shown.split(' ').next().unwrap_or("")));
     st.mark_nontrivial(&format!("{}/{}/{}/{}/{}/{}", kind, a, b, c, bits(p.0), bits(p.1)));
     let desc = json!({"id": id, "family": kind, "units": [a, b, c], "inputs": [p.0, p.1], "inputs_bits": [bits(p.0), bits(p.1)],
-        "impl": shown});
+        "impl": readable, "impl_bits": shown});
     st.case(vec![term], vec![format!("I {} ok", id)], desc);
 }
 fn moderate(r: &mut Rng) -> f64 {
@@ -487,8 +493,21 @@ fn stream_spec(a: &Args, st: &mut Stream) {
 }
 
 // ---------- stream `table` (behavioural extraction) ----------
+/// probes: six fixed values, then 200 values from a FIXED seed (the table must not depend on VERIF_SEED):
+/// moderate magnitudes, both signs, full 53-bit mantissas, so that `x * k`, `x / k'` and composite arm bodies
+/// are told apart bit for bit
+fn table_probes() -> Vec<f64> {
+    let mut v = vec![1.0f64, 3.0, 7.0, 0.1, 1e6, -2.5];
+    let mut r = Rng::new(0xC09);
+    while v.len() < 206 {
+        let e = r.unit_f64() * 12.0 - 6.0;
+        let m = 10f64.powf(e) * (1.0 + r.unit_f64());
+        v.push(if r.chance(1, 4) { -m } else { m });
+    }
+    v
+}
 fn stream_table(a: &Args) {
-    let probes = [1.0f64, 3.0, 7.0, 0.1, 1e6, -2.5];
+    let probes = table_probes();
     let mut fams = serde_json::Map::new();
     for fam in FAMILIES.iter() {
         let names = unit_names(fam);
@@ -501,8 +520,69 @@ fn stream_table(a: &Args) {
         }
         fams.insert(fam.to_string(), json!({"variants": names, "rows": rows}));
     }
+    // everything else the generated file holds, as the COMPILED code has it (variant identifiers)
+    fams.insert("energy_rate".to_string(), json!({"variants": RATE.iter().map(dbg).collect::<Vec<_>>(), "rows": []}));
+    let pair = |a: String, b: String| json!([a, b]);
+    fams.insert(
+        "_associated".to_string(),
+        json!({
+            "speed_time_unit": SPEED.iter().map(|u| pair(dbg(u), dbg(&u.associated_time_unit()))).collect::<Vec<_>>(),
+            "speed_distance_unit": SPEED.iter().map(|u| pair(dbg(u), dbg(&u.associated_distance_unit()))).collect::<Vec<_>>(),
+            "energy_rate_distance_unit": RATE.iter().map(|u| pair(dbg(u), dbg(&u.associated_distance_unit()))).collect::<Vec<_>>(),
+            "energy_rate_energy_unit": RATE.iter().map(|u| pair(dbg(u), dbg(&u.associated_energy_unit()))).collect::<Vec<_>>(),
+        }),
+    );
+    fams.insert(
+        "_bases".to_string(),
+        json!({"base_distance_unit": dbg(&BASE_DISTANCE_UNIT), "base_time_unit": dbg(&BASE_TIME_UNIT), "base_speed_unit": dbg(&BASE_SPEED_UNIT)}),
+    );
     std::fs::create_dir_all(&a.out).unwrap();
     std::fs::write(a.out.join("table.json"), Value::Object(fams).to_string()).unwrap();
+}
+
+// ---------- stream `approx` (tolerance-band re-judgement of cases whose bits differ) ----------
+/// input: `--replay FILE` with {"cases": [<case descriptions of stream `convert`>]}.  Every case is re-run on the
+/// real code; its inputs AND the implementation's outputs are embedded in a Coq term that judges each output
+/// against the exact (rational) value of the model: A line "ok" / "FAIL ...", impl line "ok".
+fn stream_approx(a: &Args, st: &mut Stream) {
+    let p = a.replay.as_ref().expect("stream approx needs --replay");
+    let v: Value = serde_json::from_str(&std::fs::read_to_string(p).unwrap()).unwrap();
+    for c in v["cases"].as_array().unwrap().iter() {
+        let id = st.next_id();
+        let mut desc = c.clone();
+        desc["orig_id"] = c["id"].clone();
+        desc["id"] = json!(id);
+        st.count("evaluations");
+        let term = match c["family"].as_str().unwrap() {
+            "convert" => {
+                let (fam, u, w) = (c["unit_family"].as_str().unwrap(), c["from"].as_str().unwrap(), c["to"].as_str().unwrap());
+                let xs: Vec<f64> = c["values_bits"].as_array().unwrap().iter().map(from_bits).collect();
+                let ys: Vec<f64> = xs.iter().map(|x| convert(fam, u, w, *x)).collect();
+                format!("UnitsRun.approx_{} {} {} {} {} {}", coq_fam(fam), id, cu(u), cu(w), coq_list(&xs, |x| coq_f64(*x)), coq_list(&ys, |y| coq_f64(*y)))
+            }
+            k @ ("create_time" | "create_speed" | "create_energy") => {
+                let u: Vec<String> = c["units"].as_array().unwrap().iter().map(|x| x.as_str().unwrap().to_string()).collect();
+                let ps = parse_pairs(&c["pairs_bits"]);
+                match k {
+                    "create_time" => {
+                        let rs: Vec<_> = ps.iter().map(|(s, d)| create_time(&u[0], &u[1], &u[2], *s, *d)).collect();
+                        format!("UnitsRun.approx_create_time {} {} {} {} {} {}", id, cu(&u[0]), cu(&u[1]), cu(&u[2]), coq_pairs(&ps), coq_list(&rs, coq_res_f))
+                    }
+                    "create_speed" => {
+                        let rs: Vec<_> = ps.iter().map(|(t, d)| create_speed(&u[0], &u[1], &u[2], *t, *d)).collect();
+                        format!("UnitsRun.approx_create_speed {} {} {} {} {} {}", id, cu(&u[0]), cu(&u[1]), cu(&u[2]), coq_pairs(&ps), coq_list(&rs, coq_res_f))
+                    }
+                    _ => {
+                        let rs: Vec<_> = ps.iter().map(|(r, d)| create_energy(&u[0], &u[1], *r, *d)).collect();
+                        format!("UnitsRun.approx_create_energy {} {} {} {} {}", id, cu(&u[0]), cu(&u[1]), coq_pairs(&ps), coq_list(&rs, coq_res_e))
+                    }
+                }
+            }
+            // names / associated units are text: nothing to re-judge
+            _ => format!("Show.line \"A\" {} \"FAIL not-numeric\"", id),
+        };
+        st.case(vec![term], vec![format!("I {} ok", id)], desc);
+    }
 }
 
 fn main() {
@@ -518,6 +598,12 @@ fn main() {
         "spec" => {
             let mut st = Stream::new(&a.out, "spec", header, a.shards);
             stream_spec(&a, &mut st);
+            st.finish();
+        }
+        "approx" => {
+            let mut st = Stream::new(&a.out, "approx", header, a.shards);
+            st.full = true;
+            stream_approx(&a, &mut st);
             st.finish();
         }
         "table" => stream_table(&a),
